@@ -932,6 +932,30 @@ func fabricateMergeCrash(root, state string) bool {
 	return false
 }
 
+// doBgFlush waits for the table's own periodic flush of the raw items (every second or two) instead of forcing one: the
+// written series become visible to searches, but - unlike a forced flush - the flush callback that invalidates the
+// tag-filter result cache is deferred to a 10 s ticker. Returns when every written series is listed by the uncached path.
+func (rn *runner) doBgFlush() {
+	want := map[string]int{}
+	for _, s := range rn.g.series {
+		want[s.mst]++
+	}
+	deadline := time.Now().Add(8 * time.Second)
+	for {
+		ok := true
+		for m, n := range want {
+			if len(rn.e.queryIDs(m, nil)) < n {
+				ok = false
+			}
+		}
+		if ok || time.Now().After(deadline) {
+			break
+		}
+		time.Sleep(100 * time.Millisecond)
+	}
+	rn.c.Ops = append(rn.c.Ops, Op{Op: "bgflush"})
+}
+
 func (rn *runner) doReopenCrash(crash string) {
 	must(rn.e.b.Close())
 	if crash != "" && !fabricateMergeCrash(rn.e.dir, crash) {
@@ -1267,6 +1291,50 @@ func genDense(r *gen.Rand, dir string, i int) *Case {
 	return rn.c
 }
 
+// genStale: filters are evaluated (and cached by the select path), new series are written and become visible through the
+// table's own periodic flush (bgflush), and the same filters are evaluated again; then after a forced flush that has
+// nothing to flush, and finally after a forced flush of one more new series.
+func genStale(r *gen.Rand, dir string, i int) *Case {
+	rn := newRunner(r, dir, i, "stale")
+	g := rn.g
+	mst := gen.Pick(r, msts)
+	for k := r.Range(4, 7); k > 0; k-- {
+		rn.doInsert(mst, g.genTags())
+	}
+	rn.e.b.Flush()
+	rn.c.Ops = append(rn.c.Ops, Op{Op: "flush"})
+	var preds []*Expr
+	for k := 0; k < 4; k++ {
+		x := g.genExpr(mst, k%3)
+		preds = append(preds, x)
+		rn.doQuery(mst, x)
+	}
+	for k := r.Range(2, 4); k > 0; k-- {
+		rn.doInsert(mst, g.genTags())
+	}
+	rn.doBgFlush()
+	for _, x := range preds {
+		rn.doQuery(mst, x)
+	}
+	rn.e.b.Flush()
+	rn.c.Ops = append(rn.c.Ops, Op{Op: "flush"})
+	for _, x := range preds {
+		rn.doQuery(mst, x)
+	}
+	rn.doList(mst)
+	nt := append(g.genTags(), [2]string{"zz", "new"})
+	sort.Slice(nt, func(a, b int) bool { return nt[a][0] < nt[b][0] })
+	rn.doInsert(mst, nt)
+	rn.e.b.Flush()
+	rn.c.Ops = append(rn.c.Ops, Op{Op: "flush"})
+	for _, x := range preds {
+		rn.doQuery(mst, x)
+	}
+	rn.finishAtoms()
+	must(rn.e.b.Close())
+	return rn.c
+}
+
 // pairsCase: a fixed series set and, for a few texts, every ordered pair of operators (= != =~ !~) on the same key and text,
 // the two queries back to back on both search paths with the caches emptied before each pair: whatever is cached for the first
 // filter must not answer the second one.
@@ -1331,6 +1399,8 @@ func replayCase(in *Case, dir string, i int) *Case {
 			rn.c.Ops = append(rn.c.Ops, Op{Op: "clear"})
 		case "reopen":
 			rn.doReopenCrash(op.Crash)
+		case "bgflush":
+			rn.doBgFlush()
 		case "query":
 			rn.doQuery(op.Mst, op.Expr)
 		case "list":
@@ -1407,6 +1477,17 @@ func main() {
 		for k := 0; k < ndense; k++ {
 			dir := filepath.Join(base, fmt.Sprintf("d%d", idx))
 			gen.Emit(genDense(rd.Fork(), dir, idx))
+			os.RemoveAll(dir)
+			idx++
+		}
+		nstale := 2
+		if gen.Tier() != "quick" {
+			nstale = 10
+		}
+		rt := gen.FromEnv(13)
+		for k := 0; k < nstale; k++ {
+			dir := filepath.Join(base, fmt.Sprintf("t%d", idx))
+			gen.Emit(genStale(rt.Fork(), dir, idx))
 			os.RemoveAll(dir)
 			idx++
 		}
